@@ -19,8 +19,8 @@ Model: `CkbVerif.Model.IndexerPool` (follows `util/indexer-sync/src/pool.rs`, th
   imply: announced inputs join, rejected / committed inputs leave, nothing else changes.
 * `pool_append_clears_inputs` — `append` with the overlay: the store is `append`'s, and an out-point
   is dead afterwards iff it was dead before and NO transaction of the block (cellbase included) spends it.
-* `pool_empty_is_no_overlay` — with an empty overlay the handlers are the plain ones (so every
-  theorem of `Props/C18.lean` about `get_cells` is the `pool = []` case of the overlay'd handler).
+* `pool_empty_is_no_overlay` — with an empty overlay the handlers are the plain ones (so every `get_cells`
+  statement of `Props/C18.lean` is the `pool = []` case of the overlay'd handler).
 * `pool_get_cells_eq_filter` — on every well-formed chain store and for EVERY overlay: the overlay'd
   `get_cells` never reaches `expect("stored OutPoint")` and answers exactly the plain answer (in exact
   mode the filter over `replayLive`, `get_cells_eq_filter_partial`) WITHOUT the cells the overlay marks dead.
@@ -196,7 +196,7 @@ theorem pool_tear_witness :
 `prefix ‖ 0xff × (MAX_PREFIX_SEARCH_SIZE − args_len)`): as long as every key that starts with the
 prefix continues it with at most `maxPre − argsLen` bytes, each `≤ 0xff` (only the continuation is
 constrained, not the prefix), no row lies above the seek key, so the view a descending walk has of the store is the store. (Keys are
-`prefix-byte ‖ script ‖ 16 or 17 bytes`; with `maxPre = 65535` the bound holds for all scripts whose
+`prefix-byte ‖ script ‖ 16 or 17 bytes`; with `maxPre = MAX_PREFIX_SEARCH_SIZE` (translated from the code, `u16::MAX` = 65535 today) the bound holds for all scripts whose
 args are at most `65535 − 17` bytes longer than the searched args.) -/
 theorem desc_seek_covers (maxPre : Nat) (s : Store) (pre : List Nat) (argsLen : Nat)
     (hk : ∀ e ∈ s, ∀ r, e.1.bytes = pre ++ r → r.length ≤ maxPre - argsLen ∧ ∀ x ∈ r, x ≤ 255) :
@@ -206,7 +206,7 @@ theorem desc_seek_covers (maxPre : Nat) (s : Store) (pre : List Nat) (argsLen : 
 def ffArgs : List Nat := List.replicate 17 255
 def ffStore : Store := append 1 1 [] ⟨0, 10, [⟨1, [⟨0, 4294967295⟩], [⟨5000, ⟨1, ffArgs⟩, none, []⟩, ⟨60, ⟨1, [255]⟩, none, []⟩]⟩]⟩
 
-example : descView 65535 ffStore (cellPrefix true ⟨1, []⟩) 0 = ffStore := by decide +kernel
+example : descView MAX_PREFIX_SEARCH_SIZE ffStore (cellPrefix true ⟨1, []⟩) 0 = ffStore := by decide +kernel
 
 /-- not vacuous, and the class of the seeded change r5m2: with the real padding the descending search
 by the code hash (empty args) lists both cells; with a padding of 17 bytes (`maxPre = 17`) the cell
@@ -214,7 +214,7 @@ whose args are 17 × 0xff lies above the seek key and is lost, the other one is 
 theorem desc_seek_17_witness :
     let pre := cellPrefix true ⟨1, []⟩
     let ops := fun (s : Store) => (getCellsAt s [] true ⟨1, []⟩ false {} true 10 none).map (·.1.map (·.op))
-    ops (descView 65535 ffStore pre 0) = some [⟨1, 0⟩, ⟨1, 1⟩] ∧
+    ops (descView MAX_PREFIX_SEARCH_SIZE ffStore pre 0) = some [⟨1, 0⟩, ⟨1, 1⟩] ∧
     ops (descView 17 ffStore pre 0) = some [⟨1, 1⟩] := by
   decide +kernel
 
